@@ -4,7 +4,7 @@
    negotiated frame_max at or above the overhead (the negotiation guarantees >= 4096, C15).
    Stdlib only, no axioms. *)
 From Coq Require Import String.
-From Amq Require Import Lib.Base Gen.Consts Gen.Src Model.Publish.
+From Amq Require Import Lib.Base Lib.RsResult Gen.Consts Gen.SrcLimit Model.Publish.
 Open Scope string_scope.
 
 Theorem limit_source_is_model frame_max :
